@@ -129,8 +129,8 @@ class DirectMethod:
         for grid, constraints in stage._constraints.items():
             if grid!="point" and len(constraints)>0:
                 raise Exception("A stage without a transcription method can only carry point constraints; found a constraint on grid '%s' (it depends on time or on another signal of this stage)" % grid)
-        for c, m, _ in stage._constraints["point"]:
-            self.opti.subject_to(self.eval_top(stage, c), meta = m)
+        for c, m, args in stage._constraints["point"]:
+            self.opti.subject_to(self.eval_top(stage, c), scale=args["scale"], meta = m)
         self.opti.add_objective(self.eval_top(stage, stage._objective))
         self.set_initial(stage, self.opti, stage._initial)
         self.set_parameter(stage, self.opti)
